@@ -55,6 +55,7 @@ StateEv(v) == IF v.ver > 0 THEN [t |-> "created", v |-> v] ELSE [t |-> "destroye
 Matches(cond, ev) ==
   CASE cond = "finsEmpty" -> ev.t # "destroyed" /\ ev.v.fins = {}
     [] cond = "destroyed" -> ev.t = "destroyed"
+    [] cond = "tearingDown" -> ev.t # "destroyed" /\ ev.v.phase = "tearingDown"
     [] OTHER -> TRUE
 TdLike(ev) == ev.t = "destroyed" \/ ev.v.phase = "tearingDown"
 
